@@ -181,7 +181,7 @@ class HttpParser:
                     self._buf = [data]
                     return length
                 self.__on_firstline = True
-                first_line = str(data[:idx], 'unicode_escape')
+                first_line = str(data[:idx], 'iso-8859-1')
                 nb_parsed = nb_parsed + idx + 2
 
                 rest = data[idx + 2 :]
@@ -319,7 +319,7 @@ class HttpParser:
             return False
 
         # Split lines on \r\n keeping the \r\n on each line
-        lines = [str(line, 'unicode_escape') + '\r\n' for line in data[:idx].split(b'\r\n')]
+        lines = [str(line, 'iso-8859-1') + '\r\n' for line in data[:idx].split(b'\r\n')]
 
         # Parse headers into key/value pairs paying attention
         # to continuation lines.
